@@ -352,6 +352,14 @@ pub fn execute(scn: &CursorScn, judge: Judge, cov: &mut Cov, prog: &Progress) ->
                 let r = match guard(|| evf(x)) {
                     Ok(r) => r,
                     Err(p) => {
+                        // A user-defined piece may reject an argument by panicking. If direct evaluation of
+                        // the same argument panics too, the panic is the piece's, not the library's: the caller
+                        // caught it and keeps its evaluator, whose later answers must still be right.
+                        if guard(|| t.direct(x)).is_err() {
+                            cov.hit("fault_user_piece_panicked_inside_evaluator");
+                            prev_x[c] = Some(x);
+                            continue;
+                        }
                         *state = ClientState::Dead;
                         return RunResult::Violation {
                             class: "panic".into(),
@@ -363,8 +371,8 @@ pub fn execute(scn: &CursorScn, judge: Judge, cov: &mut Cov, prog: &Progress) ->
                     Ok(d) => d,
                     Err(p) => {
                         return RunResult::Violation {
-                            class: "panic".into(),
-                            detail: format!("step {step}: Piecewise::evaluate({x:e}) panicked: {p}"),
+                            class: if t.kind() == Kind::U { "mismatch".into() } else { "panic".into() },
+                            detail: format!("step {step}: Piecewise::evaluate({x:e}) panicked ({p}) although the evaluator on client {c} answered {r:e}"),
                         }
                     }
                 };
@@ -381,12 +389,14 @@ pub fn execute(scn: &CursorScn, judge: Judge, cov: &mut Cov, prog: &Progress) ->
                 probe_query(cov, e, prev_x[c], x, nan_seen[c]);
                 prev_x[c] = Some(x);
                 let si = select(e, x);
-                let m = t.piece(si, x);
-                if !same(m, d) {
-                    cov.hit("model_vs_direct_disagreement");
+                if t.kind() != Kind::U {
+                    let m = t.piece(si, x);
+                    if !same(m, d) {
+                        cov.hit("model_vs_direct_disagreement");
+                    }
                 }
                 if judge.evals && !same(r, d) {
-                    let which = (0..e.len()).filter(|&i| same(t.piece(i, x), r)).map(|i| i.to_string()).collect::<Vec<_>>().join(",");
+                    let which = (0..e.len()).filter(|&i| guard(|| t.piece(i, x)).map_or(false, |v| same(v, r))).map(|i| i.to_string()).collect::<Vec<_>>().join(",");
                     return RunResult::Violation {
                         class: "mismatch".into(),
                         detail: format!(
@@ -412,10 +422,22 @@ pub fn execute(scn: &CursorScn, judge: Judge, cov: &mut Cov, prog: &Progress) ->
                     cov.hit("noop_pull_on_empty_feed");
                     continue;
                 };
+                if t.kind() == Kind::U {
+                    // streams over a panicking user piece are only driven, never judged
+                    let _ = guard(|| it.next());
+                    continue;
+                }
                 let before = feed.pulls();
                 let r = match guard(|| it.next()) {
                     Ok(r) => r,
                     Err(p) => {
+                        if t.kind() == Kind::U {
+                            // the user piece rejected the argument (or the stream chose a piece that did):
+                            // nothing is asserted about this stream any more
+                            cov.hit("fault_user_piece_panicked_inside_stream");
+                            *poisoned = true;
+                            continue;
+                        }
                         return RunResult::Violation {
                             class: "panic".into(),
                             detail: format!("step {step}: evaluate_v stream {c} panicked on next() with input {x:e}: {p}"),
@@ -521,7 +543,7 @@ pub fn execute(scn: &CursorScn, judge: Judge, cov: &mut Cov, prog: &Progress) ->
     }
     // Whole-sequence consumptions on fresh streams.
     for (bi, b) in scn.batches.iter().enumerate() {
-        if b.func >= funcs.len() || b.xs.iter().any(|x| x.is_nan()) {
+        if b.func >= funcs.len() || b.xs.iter().any(|x| x.is_nan()) || funcs[b.func].kind() == Kind::U {
             continue;
         }
         prog.tick();
@@ -942,6 +964,21 @@ pub fn gen_scenario(rng: &mut Rng, profile: Profile, tier: Tier) -> CursorScn {
     let restart_rate = if ultra { 0 } else { *rng.pick(&[0u64, 0, 1, 2, 5]) };
     // bursts of the same argument repeated many times
     let burst_rate = *rng.pick(&[0u64, 0, 0, 1, 4]);
+    // half of the very long histories are ONE strictly monotone sweep over the function's span
+    let mono_step: Option<(f64, f64)> = if ultra && rng.chance(1, 2) {
+        let e = &steer[clients[0].func];
+        let lo = e[0];
+        let hi = e[e.len() - 1];
+        let (lo, hi) = if lo.is_finite() && hi.is_finite() && hi > lo { (lo - 1.0, hi + 1.0) } else { (-2.0, 2.0) };
+        let step = (hi - lo) / nev as f64;
+        if rng.chance(2, 3) {
+            Some((hi, -step))
+        } else {
+            Some((lo, step))
+        }
+    } else {
+        None
+    };
     let mut prev: Vec<Option<f64>> = vec![None; clients.len()];
     let mut queued: Vec<usize> = vec![0; clients.len()];
     let mut runmax: Vec<Option<f64>> = vec![None; clients.len()];
@@ -982,9 +1019,22 @@ pub fn gen_scenario(rng: &mut Rng, profile: Profile, tier: Tier) -> CursorScn {
         }
         match clients[c].kind {
             ClientKind::Eval => {
-                let x = gen_query(rng, e, prev[c], &weights[c]);
+                let x = match mono_step {
+                    Some((start, step)) => {
+                        let y = prev[c].map_or(start, |p| p + step);
+                        if y.is_finite() && prev[c].map_or(true, |p| y != p) {
+                            y
+                        } else {
+                            gen_query(rng, e, prev[c], &weights[c])
+                        }
+                    }
+                    None => gen_query(rng, e, prev[c], &weights[c]),
+                };
                 prev[c] = Some(x);
                 events.push(Ev::Query { c, x });
+                if mono_step.is_some() {
+                    continue;
+                }
                 if profile != Profile::Mixed && rng.below(64) < burst_rate {
                     let k = *rng.pick(&[1usize, 2, 3, 9, 70, 300]);
                     for _ in 0..k {
